@@ -272,7 +272,7 @@ func (gb GenBank) String() string {
 		}
 		if ref.Xref != nil {
 			if v, ok := ref.Xref["PUBMED"]; ok {
-				b.WriteString("   PUBMED   " + v + "\n")
+				b.WriteString("   PUBMED   " + AddPrefix(v, indent) + "\n")
 			}
 		}
 		if ref.Comment != "" {
